@@ -26,6 +26,7 @@ const (
 	c20EBADF
 	c20ClosedFile
 	c20UnexpectedEOF
+	c20EmptyFrame // a successfully read frame of length 0 (empty or nil data): still a frame
 	c20Aggregate // an unknown failure whose error type is not comparable (a slice of errors)
 	c20NumClasses
 )
@@ -72,7 +73,13 @@ func (r *c20Reader) ReadPacketData() ([]byte, *gopacket.CaptureInfo, error) {
 	switch cls {
 	case c20Frame, c20FrameProcErr:
 		r.errs = append(r.errs, nil)
-		return []byte{byte(i)}, &gopacket.CaptureInfo{}, nil
+		return []byte{byte(i)}, &gopacket.CaptureInfo{InterfaceIndex: i}, nil
+	case c20EmptyFrame:
+		r.errs = append(r.errs, nil)
+		if i%2 == 1 {
+			return nil, &gopacket.CaptureInfo{InterfaceIndex: i}, nil
+		}
+		return []byte{}, &gopacket.CaptureInfo{InterfaceIndex: i}, nil
 	case c20EAGAIN:
 		err = syscall.EAGAIN
 	case c20WrappedEAGAIN:
@@ -108,8 +115,16 @@ type c20Proc struct {
 }
 
 func (p *c20Proc) ProcessPacketData(data []byte, ci *gopacket.CaptureInfo) error {
-	verifAssert(len(data) == 1 && ci != nil, "processor got something that is not the frame read")
-	i := int(data[0])
+	verifAssert(ci != nil, "processor got no capture info")
+	if ci == nil {
+		return nil
+	}
+	i := ci.InterfaceIndex
+	if i >= 0 && i < len(p.rd.classes) && p.rd.classes[i] == c20EmptyFrame {
+		verifAssert(len(data) == 0, "processor got something that is not the frame read")
+	} else {
+		verifAssert(len(data) == 1 && int(data[0]) == i, "processor got something that is not the frame read")
+	}
 	p.seen = append(p.seen, i)
 	if p.rd.classes[i] == c20FrameProcErr {
 		// the processor's own error may look like any read fault: it is still a processing error
@@ -162,7 +177,7 @@ func VerifH_C20_faults() {
 	pi := 0
 	for i, cls := range rd.classes {
 		switch cls {
-		case c20Frame:
+		case c20Frame, c20EmptyFrame:
 			wantSeen = append(wantSeen, i)
 		case c20FrameProcErr:
 			wantSeen = append(wantSeen, i)
@@ -225,7 +240,7 @@ func VerifH_C20_cancel() {
 	for i, cls := range rd.classes {
 		last := i+1 == rd.cancelAt
 		switch cls {
-		case c20Frame:
+		case c20Frame, c20EmptyFrame:
 			nseen++
 		case c20FrameProcErr:
 			nseen++
